@@ -272,3 +272,24 @@ def check(repo, rep, tier):
     rule_hint_arms(repo, r4, mods)
     r5 = rep.rule("R-C07-5", "lazy branches of if_then_else run under cond / its complement", floor=1)
     rule_lazy(repo, r5)
+    r6 = rep.rule("R-C07-6", "constraints emitted outside the dummy path hold for either guard value", floor=3)
+    from .c01 import emission_sites, site_results, RT as _RT
+    for fi, call, kind in emission_sites(repo):
+        if kind != "direct" or fi.fq == _RT + ":add_constraint":
+            continue
+        res = site_results(fi, call, (), honest_premise=False)
+        bad = [(d, p) for _path, cases in res for d, p, _v in cases if not isinstance(p, str) and not p.is_zero()]
+        und = [p for _path, cases in res for d, p, _v in cases if isinstance(p, str)]
+        term = norm(call)
+        if bad:
+            d, p = bad[0]
+            r6.violation(fi.loc(call), fi.fq, "%s: v*w - y = %s when {%s}" % (term, p, ", ".join(d)),
+                         "this constraint bypasses the guard (add_constraint_unsafe) but is not an identity of its hints for every "
+                         "guard value: under a false guard the recorded witness violates it", "%s/%s" % (fi.fq, term[:50]))
+        elif und:
+            r6.undecided(fi.loc(call), fi.fq, term, und[0])
+        else:
+            r6.ok(fi.loc(call), fi.fq, term, "identity of the hints on every path, LinComb.ONE taken as the guard wire")
+    r7 = rep.rule("R-C07-7", "nested guards: suppression is inherited (or-ed), state restored exactly (shared with C08)", floor=10)
+    from .c08 import guard_discipline
+    guard_discipline(repo, r7)
